@@ -3,7 +3,7 @@
 import ast
 import struct
 
-from ..model import norm, head, walk_no_nested, AnalysisError, FuncInfo, enclosing_stmt, ancestors
+from ..model import norm, head, walk_no_nested, AnalysisError, FuncInfo, enclosing_stmt, ancestors, live
 from ..cfg import cfg_of
 from ..q import (find, match, const, try_const, only_via, tests, stmt_nodes, one, fmt, cfg_node_for, calls, le_edge, edges_where)
 from ..core import key
@@ -42,7 +42,7 @@ def rule_partition(report, prog):
     report.check(okk, 'C06-R1', key(f.qname, 'fragments [0:miu], [miu:2miu], ... partition the request'), f.loc(),
                  'SNEP client fragmentation no longer partitions the request')
     t = [i for i in walk_no_nested(f.node) if isinstance(i, ast.If) and norm(i.test) == 'len(snep_request) <= send_miu']
-    report.check(len(t) == 1 and norm(t[0].body[0]) == 'return socket.send(snep_request)', 'C06-R1',
+    report.check(len(t) == 1 and norm(live(t[0].body)[0]) == 'return socket.send(snep_request)', 'C06-R1',
                  key(f.qname, 'a request that fits the MIU is sent in one piece'), f.loc(), 'unfragmented send condition changed')
     # every failed send aborts
     for c in _sends(f, 'socket'):
@@ -58,7 +58,7 @@ def rule_partition(report, prog):
         any(isinstance(l, ast.For) and norm(l.iter) == 'parts' for l in ast.walk(g.node))
     report.check(okk, 'C06-R1', key(g.qname, 'response fragments partition the response'), g.loc(), 'SNEP server response fragmentation changed')
     t = [i for i in ast.walk(g.node) if isinstance(i, ast.If) and norm(i.test) == 'len(data) <= send_miu']
-    report.check(len(t) == 1 and norm(t[0].body[0]) == 'client_socket.send(data)', 'C06-R1',
+    report.check(len(t) == 1 and norm(live(t[0].body)[0]) == 'client_socket.send(data)', 'C06-R1',
                  key(g.qname, 'a response that fits the MIU is sent in one piece'), g.loc(), 'unfragmented response condition changed')
     report.check(bool(find(g.node, 'send_miu = client_socket.getsockopt(nfc.llcp.SO_SNDMIU)')), 'C06-R1',
                  key(g.qname, 'fragment size is the connection send MIU'), g.loc(), 'server fragment size source changed')
@@ -68,9 +68,9 @@ def rule_partition(report, prog):
     # handover client
     h = prog.func('nfc.handover.client.HandoverClient.send_octets')
     lp = [l for l in walk_no_nested(h.node) if isinstance(l, ast.While)]
-    okk = len(lp) == 1 and norm(lp[0].test) == 'len(octets) > 0' and len(lp[0].body) == 1 and isinstance(lp[0].body[0], ast.If) and \
-        norm(lp[0].body[0].test) == 'self.socket.send(octets[0:miu])' and [norm(s) for s in lp[0].body[0].body] == ['octets = octets[miu:]'] and \
-        [norm(s) for s in lp[0].body[0].orelse] == ['break']
+    okk = len(lp) == 1 and norm(lp[0].test) == 'len(octets) > 0' and len(live(lp[0].body)) == 1 and isinstance(live(lp[0].body)[0], ast.If) and \
+        norm(live(lp[0].body)[0].test) == 'self.socket.send(octets[0:miu])' and [norm(s) for s in live(live(lp[0].body)[0].body)] == ['octets = octets[miu:]'] and \
+        [norm(s) for s in live(live(lp[0].body)[0].orelse)] == ['break']
     report.check(okk, 'C06-R1', key(h.qname, 'sends octets[0:miu] and drops exactly that prefix on success'), h.loc(),
                  'handover client fragmentation changed')
     report.check(bool(find(h.node, 'return len(octets) == 0')) and bool(find(h.node, 'miu = self.socket.getsockopt(nfc.llcp.SO_SNDMIU)')),
@@ -166,7 +166,7 @@ def rule_oversize(report, prog):
     # server ExcessData
     p = prog.func('nfc.snep.server.SnepServer.process_snep_request')
     okk = any(isinstance(i, ast.If) and norm(i.test) == 'len(response_data) > acceptable_length' and
-              [norm(s) for s in i.body] == ['response_code = 193', "response_data = b''"] for i in ast.walk(p.node))
+              [norm(s) for s in live(i.body)] == ['response_code = 193', "response_data = b''"] for i in ast.walk(p.node))
     report.check(okk, 'C06-R3', key(p.qname, 'GET response larger than the client limit becomes ExcessData'), p.loc(), 'ExcessData handling changed')
 
 
